@@ -19,7 +19,7 @@ def cases(seed, tier):
     out = []
     for k in range(n):
         r = random.Random(sch.np_seed(f"c14.{k}"))
-        c = wp.std_case(r, sch.np_seed(f"s{k}"), kinds=("bimodal", "bimodal", "gauss"), scenarios=("plain", "plain", "crash_resume", "like_raise"), blobs=(0,), evals=("scalar", "vector"),
+        c = wp.std_case(r, sch.np_seed(f"s{k}"), kinds=("bimodal", "bimodal", "gauss"), scenarios=("plain", "plain", "crash_resume", "like_raise", "rewind"), blobs=(0,), evals=("scalar", "vector"),
                         clustering=True, cluster_every=(1, 2, 3, 5, 7), n_max_clusters=(None, None, 1, 2, 3), vv=False, d=r.choice([1, 2, 2, 3]))
         c["cfg"]["n_particles"] = r.choice([16, 24, 32, 64, 96, 128])
         c["cfg"]["ess_ratio"] = r.choice([1.0, 2.0, 4.0])
@@ -38,6 +38,27 @@ def cases(seed, tier):
             c["eval"] = "vector"
             c.pop("pool", None)
             c["family"] = "vanishing"
+        elif r.random() < 0.2:
+            # three modes, two of them broad and light: they die out at different temperatures, so that - with a clustering cadence > 1 - a clusterer with
+            # three or more clusters is re-used on a pool in which a cluster that is neither the first nor the last has no training point left
+            d = r.choice([2, 2, 3])
+            wa, wb = r.choice([(0.01, 0.04), (0.04, 0.01), (0.02, 0.02)])
+            s1, s2 = r.choice([0.02, 0.04]), r.choice([0.08, 0.12])
+            pos = r.sample([-0.65, 0.0, 0.6], 3)
+            c["target"] = dict(d=d, lo=[-1.0] * d, hi=[1.0] * d, kind="bimodal", comps=[dict(w=wa, factors=[["gauss", pos[0], s2]] + [["gauss", -0.3, s2]] * (d - 1)),
+                                                                                       dict(w=wb, factors=[["gauss", pos[1], s2]] + [["gauss", 0.3, s2]] * (d - 1)),
+                                                                                       dict(w=1 - wa - wb, factors=[["gauss", pos[2], s1]] + [["gauss", 0.0, s1]] * (d - 1))])
+            c["cfg"].update(n_particles=r.choice([128, 192]), cluster_every=r.choice([2, 3, 5, 7]), split_threshold=r.choice([0.5, 1.0]), n_max_clusters=r.choice([None, None, 4]))
+            c["cfg"].pop("n_steps", None)
+            c["cfg"].pop("n_max_steps", None)
+            c["n_total"] = r.choice([256, 384])
+            c["eval"] = "vector"
+            c.pop("pool", None)
+            c["target"].pop("vec_out", None)
+            c["scenario"] = "plain"
+            for k2 in ("like_fault", "save_every", "reconfig", "resume_n_total", "after_exc", "n_total2", "rewind_to"):
+                c.pop(k2, None)
+            c["family"] = "vanishing3"
         elif r.random() < 0.15:
             # very narrow likelihood: the first annealing temperatures are tiny (1e-5..1e-3), where "is this still the warm-up?" tests
             # that are not exact comparisons with 0 go wrong
